@@ -238,12 +238,43 @@ def template(spec, mapping, reverse, batch, ktype):
 _t = {}
 
 
+LONG_N = (9, 10, 11, 19, 20, 21, 33, 64, 100, 257)
+LONG_PATTERNS = ('cycle', 'down', 'const', 'mixed')
+LONG_SPECS = {'int': ['k', 'k/cmp/desc', 'EXPR:k'],
+              'str': ['k', 'k/nocase', 'k/byfn/desc'],
+              'pair': ['k,k2', 'k/cmp/desc,k2/cmp/asc'],
+              'callint': ['k'], 'nummix': ['k'], 'tuple-item': [''],
+              'plain-item': ['', '/cmp/desc']}
+
+
+def long_syms(pattern, n, m):
+    """a list of n key symbols over a domain of m values"""
+    if pattern == 'cycle':
+        return [i % m for i in range(n)]
+    if pattern == 'down':
+        return [(n - 1 - i) % m for i in range(n)]
+    if pattern == 'const':
+        return [0] * n
+    x, out = 12345, []
+    for _ in range(n):              # a fixed linear congruential sequence
+        x = (x * 1103515245 + 12345) % (1 << 31)
+        out.append((x >> 8) % m)
+    return out
+
+
 def cases(tier):
     maxn = 4 if tier == 'quick' else 5
     for ktype in DOMAINS:
         for spec in SPECS[ktype]:
             for n in range(0, maxn + 1):
                 yield {'ktype': ktype, 'spec': spec, 'n': n}
+    # scale: lists far longer than the exhaustive domain
+    for ktype, specs in LONG_SPECS.items():
+        for spec in specs:
+            for n in (LONG_N if tier != 'quick' else LONG_N[:8]):
+                for pattern in LONG_PATTERNS:
+                    yield {'kind': 'long', 'ktype': ktype, 'spec': spec,
+                           'n': n, 'pattern': pattern}
 
 
 def show(ktype, syms):
@@ -398,6 +429,16 @@ def run(case):
         return res
     ktype, spec, n = case['ktype'], case['spec'], case['n']
     dom = DOMAINS[ktype]
+    if case.get('kind') == 'long':
+        syms = long_syms(case['pattern'], n, len(dom))
+        for mapping in (0, 1):
+            if ktype == 'plain-item' and mapping:
+                continue
+            judge_one(res, ktype, syms, spec, mapping)
+        res.evals = 14
+        res.nt_count = 14
+        res.outcome = '%s:long' % ktype
+        return res
     nt = ev = 0
     for syms in itertools.product(range(len(dom)), repeat=n):
         for mapping in (0, 1):
